@@ -9,6 +9,13 @@ CLASS_FILTER = {'C01': r'^LDG_', 'C02': r'^LUG_', 'C03': r'^L[DU]G_(VLabel|uint|
                 'C05': r'^(DW|UW)__'}
 
 
+# units whose contracts state more than the property demands (per-vertex 'enqueued at most once' where C19
+# only bounds the total): see bin/check
+STRONGER_THAN_PROPERTY = ()
+# bounded stand-ins (native, exhaustive up to the stated bound), run on every check of the property
+BOUNDED = {'C19': [('findAllVertexPredecessors#scans<=V+E', 'replay_findall',
+                     'every simple directed graph with <= 4 vertices and the first 400000 with 5, every source: '
+                     'neighbourhood scans counted through a graph type that shadows getOutNeighbours')]}
 CODEC_UNITS = ('swapBytes', '_isSystemBigEndian', 'readBinaryValue', 'writeBinaryValue')
 
 
